@@ -55,6 +55,11 @@ def gen(ctx):
     src = c10_src.generate(REPO, plugin_file())
     write_if_changed(COQ / "Gen" / "SlugSrc.v", src)
     ctx.gen_info["SlugSrc"] = hashlib.sha256(src.encode()).hexdigest()[:16]
+    # round 5: the CLI half (plug-in _anchor_func + cli.py print_anchors)
+    from gen import c10_cli
+    cli = c10_cli.generate(REPO, plugin_file())
+    write_if_changed(COQ / "Gen" / "AnchorsCliSrc.v", cli)
+    ctx.gen_info["AnchorsCliSrc"] = hashlib.sha256(cli.encode()).hexdigest()[:16]
     ctx.gen_info["sources"] = src_hashes(["myst_parser/mdit_to_docutils/base.py", "myst_parser/cli.py",
                                           "myst_parser/mdit_to_docutils/transforms.py"])
 
